@@ -20,6 +20,7 @@ def run(ctx, rep):
     area_wiring(prog, rep)
     pairing(prog, rep, "R06.3")
     geometry_inputs(prog, rep, "R06.4", only=("rectangle", "circle", "ellipse", "rounded_rectangle"))
+    fill_search_fallback(prog, rep)
     from rules import axis
     axis.run_for(ctx.program("default"), rep, 'R06.5', ['src/primitives/rectangle/styled.rs', 'src/primitives/primitive_style.rs', 'src/primitives/circle', 'src/primitives/ellipse', 'src/primitives/rounded_rectangle', 'src/primitives/common/styled_scanline.rs', 'src/primitives/common/scanline.rs'], 'stroke and fill areas of the closed shapes are computed per axis')
 
@@ -243,3 +244,54 @@ def geometry_inputs(prog, rep, rule, only=None):
                 elif p.endswith("::Scanlines::new") and "StyledScanlines" not in p:
                     ok = a[0][0] == "call" and a[0][1].endswith("::fill_area")
                     rep.check(ok, rule, "%s:%s:fill-generator" % (shape, which), "the fill-only generator must scan the fill area; scans %s" % show(a[0], maxd=2), at=f.span, fn=f.path)
+
+
+def fill_search_fallback(prog, rep, rule="R06.6"):
+    """A styled scanline of the rounded rectangle carries the fill range found by searching its columns for the first /
+    last column inside the fill area.  When the search finds no such column (the fill area has rows but this row of it
+    is empty: a fill area of zero width) the scanline must carry NO fill — a fallback to the ends of the stroke scanline
+    paints the whole row in the fill colour although fill_area() contains none of its points.
+    Path summaries with the searches walked once: on every path on which the left search ends without a hit, the fill
+    range handed to StyledScanline::new is absent or empty."""
+    from mirq.paths import Paths, Unsupported, is_continues, variant_of, show_fact
+    SS = PRIM + "rounded_rectangle::styled::StyledScanlines"
+    try:
+        nx = prog.method1(SS, "next", "core::iter::traits::iterator::Iterator")
+    except Exception as e:
+        rep.fail(rule, "rounded_rectangle:fill-fallback", "anchor lost: %s" % e, status="undecided")
+        return
+    bad = []
+    n_nohit = n_hit = 0
+    try:
+        summs = Paths(prog, loops="once", limit=6000).of(nx)
+    except Unsupported as e:
+        rep.fail(rule, "rounded_rectangle:fill-fallback", "cannot summarise: %s" % e, status="undecided", at=nx.span, fn=nx.path)
+        return
+    for sm in summs:
+        if sm.ret is None or sm.ret[0] != "agg" or not str(sm.ret[1]).endswith("Option::Some") or not sm.ret[2]:
+            continue
+        v = sm.ret[2][0]
+        if not (v[0] == "call" and v[1].endswith("StyledScanline::new") and len(v[3]) == 3):
+            continue
+        fill = v[3][2]
+        # did the left (first-column) search end without a hit?
+        nohit = False
+        for fct in sm.facts:
+            if fct[0] == "variant" and fct[2] == ("None",):
+                x = fct[1]
+                if is_continues(x) and x[3] and x[3][0][1].split("::")[-1] == "next":
+                    nohit = True      # looked at a column, it was outside, and the rest of the search found nothing
+                if x[0] == "call" and x[1].split("::")[-1] == "next" and any(n[0] == "call" and n[1].endswith("::clone") for n in walk(x)):
+                    nohit = True      # the stroke scanline has no column at all
+        vo = variant_of(fill)
+        if vo is None:
+            continue
+        if nohit:
+            n_nohit += 1
+            empty = vo[1] == "None" or (vo[1] == "Some" and fill[2][0][0] == "agg" and str(fill[2][0][1]).endswith("Range") and fill[2][0][2][0] == fill[2][0][2][1])
+            if not empty:
+                bad.append("the search finds no column inside the fill area, yet the scanline carries the fill range %s" % show(fill, maxd=5))
+        else:
+            n_hit += 1
+    rep.check(not bad and n_nohit >= 1 and n_hit >= 1, rule, "rounded_rectangle:fill-fallback",
+              "a row of the fill area without a contained column must carry no fill: %s" % ("; ".join(sorted(set(bad))[:2]) or "paths without/with hit: %d/%d" % (n_nohit, n_hit)), at=nx.span, fn=nx.path)
